@@ -95,7 +95,7 @@ fn check_walk_all(a: &ast::Aidl, exp: &Seq) {
 
 /// Interface at the most detailed level: return type of symbolic shape to depth 2 (all 25 shapes incl. maps with two sub-trees).
 #[kani::proof]
-#[kani::unwind(4)]
+#[kani::unwind(3)]
 fn c15_symbols_interface_return_d2() {
     let c: [u8; 7] = kani::any();
     let mut exp = Seq::new();
@@ -292,4 +292,42 @@ fn c15_symbols_spine_d3() {
     let a = interface_tree(ret, leaf(CAT_PRIMITIVE, 91), leaf(CAT_PRIMITIVE, 90));
     check_walk_all(&a, &exp);
     std::mem::forget(a);
+}
+
+// ---------------------------------------------------------------------------------------------------------------
+// Concrete shape table: all 25 container shapes of nesting depth <= 2 over {array, list, map}.  With the shape concrete the
+// tree is concrete; the filter level, predicate index and query position stay symbolic.
+// ---------------------------------------------------------------------------------------------------------------
+pub const NSHAPES: usize = 25;
+pub const SHAPES: [[u8; 7]; NSHAPES] = [
+    [0, 0, 0, 0, 0, 0, 0],
+    [1, 0, 0, 0, 0, 0, 0], [1, 1, 0, 0, 0, 0, 0], [1, 2, 0, 0, 0, 0, 0], [1, 3, 0, 0, 0, 0, 0],
+    [2, 0, 0, 0, 0, 0, 0], [2, 1, 0, 0, 0, 0, 0], [2, 2, 0, 0, 0, 0, 0], [2, 3, 0, 0, 0, 0, 0],
+    [3, 0, 0, 0, 0, 0, 0], [3, 0, 1, 0, 0, 0, 0], [3, 0, 2, 0, 0, 0, 0], [3, 0, 3, 0, 0, 0, 0],
+    [3, 1, 0, 0, 0, 0, 0], [3, 1, 0, 1, 0, 0, 0], [3, 1, 0, 2, 0, 0, 0], [3, 1, 0, 3, 0, 0, 0],
+    [3, 2, 0, 0, 0, 0, 0], [3, 2, 0, 1, 0, 0, 0], [3, 2, 0, 2, 0, 0, 0], [3, 2, 0, 3, 0, 0, 0],
+    [3, 3, 0, 0, 0, 0, 0], [3, 3, 0, 0, 1, 0, 0], [3, 3, 0, 0, 2, 0, 0], [3, 3, 0, 0, 3, 0, 0],
+];
+
+fn one_shape_return(sh: &[u8; 7]) {
+    let mut exp = Seq::new();
+    exp.push(3); exp.push(5); exp.push(2); exp.push(50);
+    let mut cur = 0usize; let mut id = 100usize;
+    let ret = mk_type(sh, &mut cur, 2, &mut id, &mut exp);
+    exp.push(62); exp.push(91); exp.push(70); exp.push(90);
+    let a = interface_tree(ret, leaf(CAT_PRIMITIVE, 91), leaf(CAT_PRIMITIVE, 90));
+    check_walk_all(&a, &exp);
+    std::mem::forget(a);
+}
+
+#[kani::proof]
+#[kani::unwind(3)]
+fn c15p_one_concrete_shape() {
+    one_shape_return(&SHAPES[22]);
+}
+
+#[kani::proof]
+#[kani::unwind(4)]
+fn c15p_five_concrete_shapes() {
+    one_shape_return(&SHAPES[4]); one_shape_return(&SHAPES[8]); one_shape_return(&SHAPES[14]); one_shape_return(&SHAPES[19]); one_shape_return(&SHAPES[24]);
 }
